@@ -5,12 +5,13 @@ id=$1; v=$2; wt=/tmp/mut-$id; d=$wt/_seeded/$v
 PY="env PYTHONPATH=$wt /venv/bin/python"
 cd $wt || exit 3
 git checkout -q -- . ; 
-timeout 300 $PY $d/demo.py > /tmp/demo_clean.out 2>&1; rc_clean=$?
+timeout 300 $PY $d/demo.py > /tmp/demo_clean_$id$v.out 2>&1; rc_clean=$?
 git apply $d/patch.diff || { echo "PATCH DOES NOT APPLY"; exit 3; }
-timeout 300 $PY $d/demo.py > /tmp/demo_patched.out 2>&1; rc_patched=$?
-tests=$($PY -m pytest -q -p no:cacheprovider --timeout=900 msdm/tests 2>&1 | tail -1)
-failed=$($PY -m pytest -q -p no:cacheprovider --timeout=900 msdm/tests 2>&1 | grep '^FAILED' | sed 's/ - .*//' | sort | tr '\n' ' ')
+timeout 300 $PY $d/demo.py > /tmp/demo_patched_$id$v.out 2>&1; rc_patched=$?
+$PY -m pytest -q -p no:cacheprovider --timeout=900 msdm/tests > /tmp/pytest_$id$v.out 2>&1
+tests=$(tail -1 /tmp/pytest_$id$v.out)
+failed=$(grep '^FAILED' /tmp/pytest_$id$v.out | sed 's/ - .*//; s/FAILED //' | sort | tr '\n' ' ')
 git checkout -q -- .
 echo "$id/$v demo_clean_rc=$rc_clean demo_patched_rc=$rc_patched tests='$tests' failed='$failed'"
-echo "   clean: $(tail -1 /tmp/demo_clean.out | cut -c1-150)"
-echo "   patched: $(tail -1 /tmp/demo_patched.out | cut -c1-200)"
+echo "   clean: $(tail -1 /tmp/demo_clean_$id$v.out | cut -c1-150)"
+echo "   patched: $(tail -1 /tmp/demo_patched_$id$v.out | cut -c1-200)"
